@@ -33,6 +33,7 @@ struct BT<rlbox_vsbx_sandbox<Cfg>>
   static const char* name() { return "model"; }
   static inline const vsbx_library* libs[2] = { nullptr, nullptr };
   static void create(rlbox_sandbox<S>& sb, int lib = 0) { sb.create_sandbox(libs[lib]); }
+  static void* symbol(rlbox_sandbox<S>& sb, const char* fn) { return sb.lookup_symbol(fn); }
   template<typename Sig, typename... A>
   static auto invoke(rlbox_sandbox<S>& sb, const char* fn, A&&... a)
   {
@@ -46,6 +47,7 @@ template<> struct BT<rlbox_noop_sandbox>
   static constexpr bool foreign = false;
   static const char* name() { return "noop"; }
   static void create(rlbox_sandbox<S>& sb, int = 0) { sb.create_sandbox(); }
+  static void* symbol(rlbox_sandbox<S>&, const char* fn) { return native_table().at(fn); }
   template<typename Sig, typename... A>
   static auto invoke(rlbox_sandbox<S>& sb, const char* fn, A&&... a)
   {
@@ -59,6 +61,7 @@ template<> struct BT<rlbox_dylib_sandbox>
   static constexpr bool foreign = false;
   static const char* name() { return "dylib"; }
   static void create(rlbox_sandbox<S>& sb, int lib = 0) { sb.create_sandbox(getenv(lib ? "VERIF_GUEST2" : "VERIF_GUEST1")); }
+  static void* symbol(rlbox_sandbox<S>& sb, const char* fn) { return sb.lookup_symbol(fn); }
   template<typename Sig, typename... A>
   static auto invoke(rlbox_sandbox<S>& sb, const char* fn, A&&... a)
   {
